@@ -45,6 +45,16 @@ fn gen_frame(rng: &mut Rng, density: f64, kind: u8) -> Frame {
         }
         _ => {}
     }
+    // whole-frame patterns: an idle receiver's empty frame (all zeros), all ones, one repeated byte (also the frame type
+    // bytes and 0x1A itself), an empty timestamp/signal in front of a random payload, and the reverse
+    if rng.chance(0.04) {
+        let fill = *rng.pick(&[0x00u8, 0x00, 0xFF, 0x1A, 0x31, 0x32, 0x33, 0x34, 0x01, 0x80]);
+        match rng.below(4) {
+            0 | 1 => body.iter_mut().for_each(|b| *b = fill),
+            2 => body[..7].iter_mut().for_each(|b| *b = fill),
+            _ => body[7..].iter_mut().for_each(|b| *b = fill),
+        }
+    }
     let mut raw = vec![0x1A, kind];
     let mut plain = vec![0x1A, kind];
     for b in &body {
@@ -480,7 +490,7 @@ fn exercise(r: &mut Report, rt: &tokio::runtime::Runtime, rng: &mut Rng, frames:
 }
 
 pub fn run(a: &Args, r: &mut Report) {
-    r.rule = "frame sequences of 1-8 Beast frames (0x31/0x32/0x33 and 0x34 which must be swallowed), 0x1A density 0-40 %, runs of 2-6 consecutive 0x1A, 0x1A as first/last byte of timestamp, signal and payload; chunkings: one piece, EVERY single cut and EVERY pair of cuts of each short stream (<= 80 raw bytes quick, <= 200 thorough), random multi-cut, 1-byte dribble, cuts before/between/after every escape pair of long streams (up to 3000 bytes, 1024-byte reads); delivered through hook H1 on a current-thread executor; in addition random chunkings through the real TCP, UDP and websocket arms over loopback sockets (no hook; UDP judged on content only), incl. datagrams and messages longer than 1024 bytes, and partitions with empty pieces (zero-length datagrams, empty websocket messages, empty hook chunks). distinct = distinct (stream, chunking) pairs with a correct result".into();
+    r.rule = "frame sequences of 1-8 Beast frames (0x31/0x32/0x33 and 0x34 which must be swallowed), 0x1A density 0-40 %, runs of 2-6 consecutive 0x1A, 0x1A as first/last byte of timestamp, signal and payload, 4 % whole-frame patterns (all zeros, all ones, one repeated byte, empty header or empty payload); chunkings: one piece, EVERY single cut and EVERY pair of cuts of each short stream (<= 80 raw bytes quick, <= 200 thorough), random multi-cut, 1-byte dribble, cuts before/between/after every escape pair of long streams (up to 3000 bytes, 1024-byte reads); delivered through hook H1 on a current-thread executor; in addition random chunkings through the real TCP, UDP and websocket arms over loopback sockets (no hook; UDP judged on content only), incl. datagrams and messages longer than 1024 bytes, and partitions with empty pieces (zero-length datagrams, empty websocket messages, empty hook chunks). distinct = distinct (stream, chunking) pairs with a correct result".into();
     r.assumptions.push("a frame may stay pending while fewer than 23 bytes (one byte of slack per escape pair, for chunked deliveries) of the stream remain after the last frame handed on".into());
     let rt = tokio::runtime::Builder::new_current_thread().build().unwrap();
     if let Some(p) = &a.replay {
